@@ -1,11 +1,9 @@
 ------------------------------ MODULE Progs ------------------------------
 (***************************************************************************)
-(* Enumeration of Zwerg programs by weight (leaves and unary constructs    *)
-(* weigh 1, binary/ternary constructs weigh nothing beyond their           *)
-(* operands), the order-is-documented predicate, and the replay vectors    *)
-(* that bind the meaning layer (Zw!Den) to the implementation.             *)
+(* Replay-vector generation: TLC enumerates the programs of one family     *)
+(* (Progs0), evaluates the meaning layer on each and writes ndjson.        *)
 (***************************************************************************)
-EXTENDS Zw, Json, TLCExt, SequencesExt
+EXTENDS EngineOps, Json, TLCExt, SequencesExt
 
 CONSTANTS MaxW,        \* maximal weight of the generated body
           Shard, NShards,
@@ -13,162 +11,26 @@ CONSTANTS MaxW,        \* maximal weight of the generated body
           Family       \* which constructor/leaf family to enumerate
 
 -----------------------------------------------------------------------------
-(* leaf macros: small real programs that keep the value universe finite    *)
-
-Inc       == Cat(Lit(1), W("add"))                               \* 1 add
-Lt3       == Sub("?", Cat(Lit(3), W("?lt")))                     \* ?(3 ?lt)
-IncLt3    == Cat(Inc, Lt3)                                       \* 1 add ?(3 ?lt)
-Seq12     == Cap(Alt(Lit(1), Lit(2)))                            \* [1, 2]
-Half      == Cat(Lit(2), W("div"))                               \* 2 div
-Mod3      == Cat(Inc, Cat(Lit(3), W("mod")))                     \* 1 add 3 mod
-
-E12       == Cat(Seq12, W("elem"))                               \* [1, 2] elem
-
-CoreLeaves == {Lit(1), Lit(2), Emp, W("dup"), W("drop"), W("add"), E12, W("pos")}
-
-LeavesOf(f) ==
-    CASE f \in {"altor", "subif"} -> CoreLeaves
-      [] f = "closure" ->
-           {Lit(0), Emp, Inc, IncLt3, Half, Mod3, W("dup"), W("drop")}
-      [] f = "names" ->
-           {Lit(1), Lit(2), Emp, W("add"), W("drop"), Name("A"), Name("B"), Name("F")}
-      [] f = "fmt" ->
-           {Lit(1), Lit(2), Emp, W("dup"), W("elem"), Seq12, Str(<<"a">>), W("add"), W("drop")}
-
-UnaryOf(f) ==
-    CASE f = "altor" -> {"cap", "sub?", "opt", "let1"}
-      [] f = "subif" -> {"sub?", "sub!", "fmt1", "cap"}
-      [] f = "closure" -> {"star", "plus", "opt", "cap"}
-      [] f = "names" ->
-           {"letA", "letAB", "scopeA", "capA", "subA", "bapply", "letF", "star"}
-      [] f = "fmt" -> {"fmt1", "fmt2", "fmts", "cap", "opt"}
-
-BinaryOf(f) ==
-    CASE f = "altor" -> {"cat", "alt", "or"}
-      [] f = "subif" -> {"cat", "alt", "eq", "if2"}
-      [] f = "closure" -> {"cat", "alt", "or"}
-      [] f = "names" -> {"cat", "alt", "or"}
-      [] f = "fmt" -> {"cat", "alt", "fmt3"}
-
-MkUnary(u, a) ==
-    CASE u = "cap"  -> Cap(a)
-      [] u = "sub?" -> Sub("?", a)
-      [] u = "sub!" -> Sub("!", a)
-      [] u = "star" -> Star(a)
-      [] u = "plus" -> Plus(a)
-      [] u = "opt"  -> Opt(a)
-      [] u = "fmt1" -> Fmt(<<FLit(<<"<">>), FExp(a), FLit(<<">">>)>>)
-      [] u = "fmt2" -> Fmt(<<FExp(a), FLit(<<"-">>), FExp(Emp)>>)
-      [] u = "fmts" -> Cat(a, Fmt(<<FLit(<<"(">>), FExp(Emp), FLit(<<")">>)>>))
-      [] u = "let1" -> Cat(Let(<<"X">>, a), Name("X"))
-      [] u = "letA" -> Let(<<"A">>, a)
-      [] u = "letB" -> Let(<<"B">>, a)
-      [] u = "letAB" -> Let(<<"A", "B">>, a)
-      [] u = "scopeA" -> Scope(<<"A">>, a)
-      [] u = "scopeAB" -> Scope(<<"A", "B">>, a)
-      [] u = "capA" -> CapB(<<"A">>, a)
-      [] u = "subA" -> SubB("?", <<"A">>, a)
-      [] u = "bapply" -> BApply(a)
-      [] u = "letF" -> LetF("F", a)
-
-MkBinary(b, x, y) ==
-    CASE b = "cat" -> Cat(x, y)
-      [] b = "alt" -> Alt(x, y)
-      [] b = "or"  -> Or(x, y)
-      [] b = "eq"  -> Infix("==", x, y)
-      [] b = "lt"  -> Infix("<", x, y)
-      [] b = "if2" -> If(x, y, Emp)
-      [] b = "fmt3" -> Fmt(<<FExp(x), FLit(<<",">>), FExp(y)>>)
-
-RECURSIVE PS(_, _)
-PS(f, n) ==
-    IF n = 1 THEN LeavesOf(f)
-    ELSE {MkUnary(u, a) : u \in UnaryOf(f), a \in PS(f, n - 1)}
-         \cup UNION {{MkBinary(b, x, y) : b \in BinaryOf(f), x \in PS(f, i), y \in PS(f, n - i)}
-                     : i \in 1..(n - 1)}
-
-AllPS(f, n) == UNION {PS(f, i) : i \in 1..n}
-
------------------------------------------------------------------------------
-(* when does the documentation fix the order of results?                   *)
-
-RECURSIVE Single(_)
-RECURSIVE SingleParts(_, _)
-Single(p) ==
-    CASE p.k \in {"emp", "lit", "str", "posw", "cap", "sub", "infix", "block"} -> TRUE
-      [] p.k = "name" -> p.w # "F"       \* F names a block, which may yield many
-      [] p.k = "word" -> p.w \notin {"elem", "relem", "apply"}
-      [] p.k = "cat" -> Single(p.a) /\ Single(p.b)
-      [] p.k \in {"alt", "opt", "star", "plus"} -> FALSE
-      [] p.k = "or" -> Single(p.a) /\ Single(p.b)
-      [] p.k = "scope" -> Single(p.a)
-      [] p.k = "let" -> Single(p.a)
-      [] p.k = "letf" -> TRUE
-      [] p.k = "bapply" -> Single(p.a)
-      [] p.k = "if" -> Single(p.a) /\ Single(p.b)
-      [] p.k = "fmt" -> SingleParts(p.parts, 1)
-SingleParts(parts, j) ==
-    IF j > Len(parts) THEN TRUE
-    ELSE IF "lit" \in DOMAIN parts[j] THEN SingleParts(parts, j + 1)
-    ELSE Single(parts[j].e) /\ SingleParts(parts, j + 1)
-
-\* no ALT (or E?) in a plain position: such an expression handles a stream
-\* of inputs one after another
-RECURSIVE NoPlainAlt(_)
-NoPlainAlt(p) ==
-    CASE p.k \in {"alt", "opt"} -> FALSE
-      [] p.k = "cat" -> NoPlainAlt(p.a) /\ NoPlainAlt(p.b)
-      [] p.k = "scope" -> NoPlainAlt(p.a)
-      [] OTHER -> TRUE
-
-RECURSIVE OrderFixed(_)
-RECURSIVE OFParts(_, _, _)
-OrderFixed(p) ==
-    CASE p.k \in {"emp", "lit", "str", "word", "posw", "name", "block"} -> TRUE
-      [] p.k = "cat" -> OrderFixed(p.a) /\ OrderFixed(p.b) /\ (Single(p.a) \/ NoPlainAlt(p.b))
-      [] p.k \in {"alt", "or", "infix"} -> OrderFixed(p.a) /\ OrderFixed(p.b)
-      [] p.k \in {"cap", "sub", "scope", "let", "opt", "letf", "bapply"} -> OrderFixed(p.a)
-      [] p.k = "if" -> OrderFixed(p.c) /\ OrderFixed(p.a) /\ OrderFixed(p.b)
-      [] p.k \in {"star", "plus"} -> FALSE
-      [] p.k = "fmt" -> OFParts(p.parts, 1, 0)
-OFParts(parts, j, multi) ==
-    IF j > Len(parts) THEN multi <= 1
-    ELSE IF "lit" \in DOMAIN parts[j] THEN OFParts(parts, j + 1, multi)
-    ELSE OrderFixed(parts[j].e)
-         /\ OFParts(parts, j + 1, multi + (IF Single(parts[j].e) THEN 0 ELSE 1))
-
------------------------------------------------------------------------------
-(* input sources: a stream of two stacks, and a single stack, per depth    *)
-
-StreamSrc(d) ==
-    CASE d <= 1 -> Alt(Lit(1), Lit(2))                  \* (1, 2)
-      [] d = 2  -> Cat(Lit(1), Alt(Lit(1), Lit(2)))     \* 1 (1, 2)
-      [] d = 3  -> Cat(Lit(2), Cat(Lit(1), Alt(Lit(1), Lit(2))))
-SingleSrc(d) ==
-    CASE d <= 1 -> Lit(1)
-      [] d = 2  -> Cat(Lit(2), Lit(1))
-      [] d = 3  -> Cat(Lit(1), Cat(Lit(2), Lit(1)))
-
-\* The body is legal on a stack of depth d: names closed, effect defined.
-BodyOK(p) == WellFormed(p) /\ ~IsBad(Eff(p)) /\ Eff(p).need <= 3
-
 Vectors(p) ==
     LET d == Max(1, Eff(p).need)
-        sp == Cat(StreamSrc(d), p)
-        op == Cat(SingleSrc(d), p)
+        sp == Cat(StreamSrc(d), Cat(Prefix(Family), p))
+        op == Cat(SingleSrc(d), Cat(Prefix(Family), p))
         rs == Run(sp)
         ro == Run(op)
+        es == IF UsesBlocks(p) THEN [out |-> <<>>, m |-> [bad |-> TRUE, hard |-> TRUE]] ELSE EngineRun(sp)
+        eo == IF UsesBlocks(p) THEN [out |-> <<>>, m |-> [bad |-> TRUE, hard |-> TRUE]] ELSE EngineRun(op)
     IN (IF rs.hard THEN <<>>
         ELSE <<[ast |-> sp, den |-> rs.out, lo |-> rs.lo, hi |-> rs.hi, ordered |-> FALSE,
-                kind |-> "stream"]>>)
+                kind |-> "stream", eng |-> es.out, engok |-> ~(es.m.bad \/ es.m.hard)]>>)
        \o
        (IF ro.hard THEN <<>>
         ELSE <<[ast |-> op, den |-> ro.out, lo |-> ro.lo, hi |-> ro.hi,
-                ordered |-> OrderFixed(p), kind |-> "single"]>>)
+                ordered |-> OrderFixed(p), kind |-> "single", eng |-> eo.out,
+                engok |-> ~(eo.m.bad \/ eo.m.hard)]>>)
 
 \* Programs that are not closed / not well-formed: the compiler must reject
 \* them (C03); bodies with an undefined stack effect are not generated.
-IllFormed(p) == ~WellFormed(p)
+IllFormed(p) == ~WellFormed(Cat(Prefix(Family), p))
 
 MyShare(S) ==
     LET sq == SetToSeq(S) IN
@@ -177,7 +39,7 @@ MyShare(S) ==
 GenVectors ==
     LET all == AllPS(Family, MaxW)
         mine == MyShare(all)
-        good == SelectSeq(mine, LAMBDA r: BodyOK(r.p))
+        good == SelectSeq(mine, LAMBDA r: BodyOKF(Family, r.p))
         illf == SelectSeq(mine, LAMBDA r: IllFormed(r.p))
         vecs == FlatMap(LAMBDA r: Vectors(r.p), good)
                \o [j \in 1..Len(illf) |-> [ast |-> illf[j].p, kind |-> "illformed"]]
